@@ -219,7 +219,7 @@ Proof. vm_compute. repeat split; reflexivity. Qed.
 
 (* a non-canonical CSR chain: unsorted columns, a duplicate entry and an explicit zero *)
 Definition rows_ex : list (list (Z * Q)) :=
-  [[(2, 1#4); (0, 1#2); (2, 1#4)]; [(0, 0); (1, 1)]; [(1, 1#2); (0, 1#2)]]%Q.
+  [[(2, (1#4)%Q); (0, (1#2)%Q); (2, (1#4)%Q)]; [(0, 0%Q); (1, 1%Q)]; [(1, (1#2)%Q); (0, (1#2)%Q)]].
 Example ex_sparse : stochastic_csr rows_ex /\
   path_sparse (cdfs1d_of (zlen rows_ex) (csr_data rows_ex) (csr_indptr rows_ex)) (csr_indices rows_ex) (csr_indptr rows_ex)
               0 [1#8; 3#4; 0; 99#100]%Q = Ok [0; 2; 0; 2; 0].
